@@ -136,7 +136,9 @@ def run(ctx: Ctx):
     ctx.check("stiff_states" in f.params, "R07.b", f.key("param"), "hybrid builder has a stiff_states parameter", "hybrid_rush_larsen has no stiff_states parameter", f.where())
     others = [mm.func.name for nm, mm in models.items() if nm != name and "stiff_states" in mm.func.params]
     ctx.check(not others, "R07.b", f.key("only-hybrid"), "no other builder takes stiff_states", f"other builders take stiff_states: {others}", f.where())
-    from .c18 import check_value_forwarding, dispatched_calls, get_code_calls
+    from .c18 import check_config_keys, check_value_forwarding, dispatched_calls, get_code_calls
+
+    check_config_keys(ctx, "R07.b", only_keys={"stiff_states", "scheme"})
 
     for cname, (cmd, calls, _log, _err) in dispatched_calls(ctx).items():
         by_node: dict[int, list] = {}
